@@ -1,6 +1,6 @@
 SPECIFICATION Spec
 CONSTANTS FixUnprotect = TRUE  FixFragCount = TRUE  GeckoPadCheck = FALSE  TcpAddrCheck = TRUE
-  UDPLenCheck = TRUE  PunchMin = 33  FeedIdxCheck = TRUE  Mode = "all"  MaxSteps = 4
+  UDPLenCheck = TRUE  PunchMin = 33  FeedIdxCheck = TRUE  Mode = "shapes"  Only = "gecko"  MaxSteps = 4
 INVARIANT NoViolation
 VIEW View
 CHECK_DEADLOCK FALSE
